@@ -58,6 +58,8 @@ type Term struct {
 	I, J int    // extract hi/lo
 	Name string // var
 	ID   int
+	ub   uint64 // cached unsigned upper bound
+	ubOK bool
 }
 
 type termKey struct {
@@ -276,6 +278,14 @@ func (tb *Table) Eq(a, b *Term) *Term {
 			return tb.Not(a)
 		}
 	}
+	if a.Sort != Bool {
+		if b.IsConst() && b.Val > a.UB() {
+			return tb.False
+		}
+		if a.IsConst() && a.Val > b.UB() {
+			return tb.False
+		}
+	}
 	// zext(x) == const  ->  x == const' or false
 	if b.IsConst() && a.Op == OpZExt {
 		inner := a.A[0]
@@ -286,6 +296,11 @@ func (tb *Table) Eq(a, b *Term) *Term {
 	}
 	if a.IsConst() && b.Op == OpZExt {
 		return tb.Eq(b, a)
+	}
+	if b.IsConst() && a.Op == OpIte && a.Sort != Bool && !(a.A[1].IsConst() && a.A[2].IsConst()) {
+		if r, ok := tb.MapTree(a, Bool, func(v uint64) *Term { return tb.BoolC(v == b.Val) }); ok {
+			return r
+		}
 	}
 	// ite(c, k1, k2) == k3 with consts
 	if b.IsConst() && a.Op == OpIte && a.A[1].IsConst() && a.A[2].IsConst() {
@@ -504,6 +519,12 @@ func (tb *Table) Bin(op Op, a, b *Term) *Term {
 		if a == b {
 			return tb.False
 		}
+		if b.IsConst() && a.UB() < b.Val {
+			return tb.True
+		}
+		if a.IsConst() && a.Val >= b.UB() {
+			return tb.False
+		}
 		if b.IsConst() && b.Val == 0 {
 			return tb.False
 		}
@@ -522,6 +543,12 @@ func (tb *Table) Bin(op Op, a, b *Term) *Term {
 	case OpULe:
 		if a == b {
 			return tb.True
+		}
+		if b.IsConst() && a.UB() <= b.Val {
+			return tb.True
+		}
+		if a.IsConst() && a.Val > b.UB() {
+			return tb.False
 		}
 		if a.IsConst() && a.Val == 0 {
 			return tb.True
@@ -545,6 +572,9 @@ func (tb *Table) Bin(op Op, a, b *Term) *Term {
 		if a == b {
 			return tb.False
 		}
+		if half := uint64(1) << (uint(s) - 1); a.UB() < half && b.UB() < half {
+			return tb.Bin(OpULt, a, b)
+		}
 		// zext operands are non-negative in the wider sort: use unsigned compare
 		if a.Op == OpZExt && b.IsConst() && sval(b.Val, s) >= 0 {
 			return tb.Bin(OpULt, a, b)
@@ -558,6 +588,9 @@ func (tb *Table) Bin(op Op, a, b *Term) *Term {
 	case OpSLe:
 		if a == b {
 			return tb.True
+		}
+		if half := uint64(1) << (uint(s) - 1); a.UB() < half && b.UB() < half {
+			return tb.Bin(OpULe, a, b)
 		}
 		if a.Op == OpZExt && b.IsConst() && sval(b.Val, s) >= 0 {
 			return tb.Bin(OpULe, a, b)
@@ -638,7 +671,7 @@ func (tb *Table) Extract(a *Term, hi, lo int) *Term {
 	case OpExtract:
 		return tb.Extract(a.A[0], hi+a.J, lo+a.J)
 	case OpBAnd, OpBOr, OpBXor:
-		if lo == 0 || a.A[1].IsConst() {
+		if a.A[1].IsConst() {
 			return tb.Bin(a.Op, tb.Extract(a.A[0], hi, lo), tb.Extract(a.A[1], hi, lo))
 		}
 	case OpLShr:
@@ -705,6 +738,11 @@ func (tb *Table) ZExt(a *Term, w Sort) *Term {
 	}
 	if a.Op == OpZExt {
 		return tb.ZExt(a.A[0], w)
+	}
+	if a.Op == OpIte {
+		if r, ok := tb.MapTree(a, w, func(v uint64) *Term { return tb.Const(w, v) }); ok {
+			return r
+		}
 	}
 	return tb.mk(OpZExt, w, a, nil, nil, 0, int(w-a.Sort), 0, "")
 }
@@ -834,5 +872,103 @@ func (tb *Table) Eval(t *Term, env map[string]uint64, memo map[*Term]uint64) uin
 		r = foldTable.Bin(t.Op, a, b).Val
 	}
 	memo[t] = r
+	return r
+}
+
+// UB returns a sound unsigned upper bound of a bit-vector term (cheap interval analysis, memoised).
+func (t *Term) UB() uint64 {
+	if t.ubOK {
+		return t.ub
+	}
+	m := mask(t.Sort)
+	var r uint64 = m
+	fill := func(x uint64) uint64 { // smallest 2^k-1 >= x
+		x |= x >> 1
+		x |= x >> 2
+		x |= x >> 4
+		x |= x >> 8
+		x |= x >> 16
+		x |= x >> 32
+		return x
+	}
+	switch t.Op {
+	case OpConst:
+		r = t.Val
+	case OpZExt:
+		r = t.A[0].UB()
+	case OpExtract:
+		if t.J == 0 {
+			if u := t.A[0].UB(); u < r {
+				r = u
+			}
+		}
+	case OpBAnd:
+		a, b := t.A[0].UB(), t.A[1].UB()
+		if a < b {
+			r = a
+		} else {
+			r = b
+		}
+	case OpBOr, OpBXor:
+		a, b := t.A[0].UB(), t.A[1].UB()
+		if b > a {
+			a = b
+		}
+		r = fill(a)
+	case OpLShr:
+		if t.A[1].IsConst() {
+			k := t.A[1].Val
+			if k >= uint64(t.Sort) {
+				r = 0
+			} else {
+				r = t.A[0].UB() >> k
+			}
+		} else {
+			r = t.A[0].UB()
+		}
+	case OpShl:
+		if t.A[1].IsConst() && t.A[1].Val < 64 {
+			a := t.A[0].UB()
+			k := t.A[1].Val
+			if a <= m>>k {
+				r = a << k
+			}
+		}
+	case OpAdd:
+		a, b := t.A[0].UB(), t.A[1].UB()
+		if a+b >= a && a+b <= m {
+			r = a + b
+		}
+	case OpMul:
+		a, b := t.A[0].UB(), t.A[1].UB()
+		hi, lo := bits.Mul64(a, b)
+		if hi == 0 && lo <= m {
+			r = lo
+		}
+	case OpIte:
+		a, b := t.A[1].UB(), t.A[2].UB()
+		if b > a {
+			a = b
+		}
+		r = a
+	case OpURem:
+		r = t.A[0].UB()
+		if t.A[1].IsConst() && t.A[1].Val > 0 && t.A[1].Val-1 < r {
+			r = t.A[1].Val - 1
+		}
+	case OpUDiv:
+		if t.A[1].IsConst() && t.A[1].Val > 0 {
+			r = t.A[0].UB() / t.A[1].Val
+		}
+	case OpConcat:
+		lw := uint(t.A[1].Sort)
+		if lw < 64 {
+			r = t.A[0].UB()<<lw | t.A[1].UB()
+		}
+	}
+	if r > m {
+		r = m
+	}
+	t.ub, t.ubOK = r, true
 	return r
 }
